@@ -194,6 +194,16 @@ pub fn insert_with_fd(spec: &SourceSpec, fdx: FdX, peer: Option<OwnedFd>, ctx: C
     Some(uid)
 }
 
+/// what a callback closure captures when it owns an adapter: dropping the closure drops the adapter
+struct OwnedCell(std::rc::Rc<std::cell::RefCell<Option<OwnedAd>>>);
+
+impl Drop for OwnedCell {
+    fn drop(&mut self) {
+        let ad = self.0.borrow_mut().take();
+        drop(ad);
+    }
+}
+
 fn insert_inner(spec: &SourceSpec, ctx: Ctx, given: Option<(FdX, Option<OwnedFd>)>) -> Option<Uid> {
     let (uid, handle, dup_of, depth) = w(|w| {
         let uid = w.srcs.len();
@@ -238,10 +248,29 @@ fn insert_inner(spec: &SourceSpec, ctx: Ctx, given: Option<(FdX, Option<OwnedFd>
     let prev_ctx = w(|w| std::mem::replace(&mut w.reg_ctx, RegCtx::Op(uid)));
     w(|w| w.depth += 1);
     let guard = CbGuard(uid);
+    // some callbacks own an Async adapter of this loop: it goes away with the callback
+    let owned_adapter: Option<OwnedCell> = if spec.owns_adapter {
+        let (a, b) = sysx::socket_pair();
+        let raw = a.as_raw_fd();
+        handle.adapt_io(FdX::owned(a)).ok().map(|ad| OwnedCell(std::rc::Rc::new(std::cell::RefCell::new(Some(OwnedAd { ad: Some(ad), _peer: b, raw })))))
+    } else {
+        None
+    };
+    if let Some(o) = &owned_adapter {
+        let raw = o.0.borrow().as_ref().map(|x| x.raw).unwrap_or(-1);
+        let weak = std::rc::Rc::downgrade(&o.0);
+        w(|w| {
+            w.owned_fds.push(raw);
+            w.owned_cells.push(weak);
+            w.count("callback_owns_adapter");
+        });
+    }
+    let (owned_a, owned_b) = if spec.lifecycle { (None, owned_adapter) } else { (owned_adapter, None) };
     let res: Result<calloop::RegistrationToken, (calloop::Error, Option<Uid>)> = if spec.lifecycle {
         let zoo: Zoo<true> = Zoo { uid, inner, synth_token: None, registered: false };
         let cb = move |ev: Ev, _: &mut (), _: &mut ()| {
             let _g = &guard;
+            let _a = &owned_b;
             exec::on_callback(uid, ev)
         };
         if spec.via_insert {
@@ -264,6 +293,7 @@ fn insert_inner(spec: &SourceSpec, ctx: Ctx, given: Option<(FdX, Option<OwnedFd>
         let zoo: Zoo<false> = Zoo { uid, inner, synth_token: None, registered: false };
         let cb = move |ev: Ev, _: &mut (), _: &mut ()| {
             let _g = &guard;
+            let _a = &owned_a;
             exec::on_callback(uid, ev)
         };
         if spec.via_insert {
